@@ -323,15 +323,17 @@ def c04_parts(tier, seed):
             P("solver", T, "fast", ["--part", "solver", "--perft", 2, "--maxmate", 2, "--depths", "1,2,3,4,5", "--tt", "512,65536", "--null", "1,0"], require=["mate_in_one_roots", "verified_mate_claims"], deadline_frac=0.9),
             P("tb-asan", T, "seq", ["--part", "tb", "--names", "KQvK", "--depths", "1,2,3", "--tt", "512", "--null", "1", "--stride", 16], require=["verified_mate_claims"], deadline_frac=0.9),
             P("tb-backed", T, "fast", ["--part", "tbsearch", "--names", "KQvKN", "--maxmate", 3, "--stride", 999, "--sstride", 9, "--lstride", 3], require=["verified_mate_claims", "verified_mated_claims", "short_loss_roots"], deadline_frac=0.9),
+            P("announce", T, "fast", ["--part", "announce", "--games", 300, "--every", 3, "--depths", "6", "--tt", "65536", "--null", "1", "--maxmate", 3], require=["verified_mate_claims", "corpus_roots"], deadline_frac=0.9),
         ]
     return [
-        P("tb-net1", T, "fast", ["--part", "tb", "--names", "KQvK,KRvK,KvKQ,KvKR", "--depths", "1,2,3,4,6", "--tt", "512,65536", "--null", "1,0"], require=["verified_mate_claims", "verified_mated_claims", "mate_in_one_roots"], deadline_frac=0.95),
-        P("tb-deep", T, "fast", ["--part", "tb", "--names", "KQvK,KRvK,KvKR", "--depths", "8,10,12", "--tt", "512,65536", "--null", "1", "--stride", 3], require=["verified_mate_claims"], deadline_frac=0.95),
-        P("tb-4men", T, "fast", ["--part", "tb", "--names", "KBBvK,KBNvK,KQvKR,KRvKN", "--depths", "2,4,6", "--tt", "512", "--null", "1", "--stride", 97], require=["verified_mate_claims"], deadline_frac=0.95),
-        P("tb-net0", "c04_mates_net0", "fast", ["--part", "tb", "--names", "KQvK,KRvK", "--depths", "1,2,3,4,6", "--tt", "512", "--null", "1,0"], require=["verified_mate_claims"], deadline_frac=0.95),
-        P("solver", T, "fast", ["--part", "solver", "--perft", 3, "--maxmate", 3, "--depths", "1,2,3,4,5,6,7", "--tt", "512,65536", "--null", "1,0"], require=["mate_in_one_roots", "verified_mate_claims"], deadline_frac=0.95),
-        P("tb-asan", T, "seq", ["--part", "tb", "--names", "KQvK,KRvK", "--depths", "1,2,3,4", "--tt", "512", "--null", "1", "--stride", 4], require=["verified_mate_claims"], deadline_frac=0.95),
-        P("tb-backed", T, "fast", ["--part", "tbsearch", "--names", "KQvKN,KQvKB,KRvKB,KRvKN,KQvKR,KBNvK,KvKQN", "--maxmate", 3, "--stride", 199, "--sstride", 1, "--lstride", 1], require=["verified_mate_claims", "verified_mated_claims", "short_loss_roots"], deadline_frac=0.95),
+        P("tb-net1", T, "fast", ["--part", "tb", "--names", "KQvK,KRvK,KvKQ,KvKR", "--depths", "1,2,3,4,6", "--tt", "512,65536", "--null", "1,0"], require=["verified_mate_claims", "verified_mated_claims", "mate_in_one_roots"], deadline_frac=0.3),
+        P("tb-deep", T, "fast", ["--part", "tb", "--names", "KQvK,KRvK,KvKR", "--depths", "8,10,12", "--tt", "512,65536", "--null", "1", "--stride", 3], require=["verified_mate_claims"], deadline_frac=0.3),
+        P("tb-4men", T, "fast", ["--part", "tb", "--names", "KBBvK,KBNvK,KQvKR,KRvKN", "--depths", "2,4,6", "--tt", "512", "--null", "1", "--stride", 97], require=["verified_mate_claims"], deadline_frac=0.2),
+        P("tb-net0", "c04_mates_net0", "fast", ["--part", "tb", "--names", "KQvK,KRvK", "--depths", "1,2,3,4,6", "--tt", "512", "--null", "1,0"], require=["verified_mate_claims"], deadline_frac=0.2),
+        P("solver", T, "fast", ["--part", "solver", "--perft", 3, "--maxmate", 3, "--depths", "1,2,3,4,5,6,7", "--tt", "512,65536", "--null", "1,0"], require=["mate_in_one_roots", "verified_mate_claims"], deadline_frac=0.3),
+        P("tb-asan", T, "seq", ["--part", "tb", "--names", "KQvK,KRvK", "--depths", "1,2,3,4", "--tt", "512", "--null", "1", "--stride", 4], require=["verified_mate_claims"], deadline_frac=0.2),
+        P("tb-backed", T, "fast", ["--part", "tbsearch", "--names", "KQvKN,KQvKB,KRvKB,KRvKN,KQvKR,KBNvK,KvKQN", "--maxmate", 3, "--stride", 199, "--sstride", 1, "--lstride", 1], require=["verified_mate_claims", "verified_mated_claims", "short_loss_roots"], deadline_frac=0.5),
+        P("announce", T, "fast", ["--part", "announce", "--games", 1500, "--every", 2, "--depths", "5,6,8", "--tt", "512,65536", "--null", "1,0", "--maxmate", 3], require=["verified_mate_claims", "corpus_roots"], deadline_frac=0.5),
     ]
 
 CHECKS["C04"] = dict(
@@ -339,6 +341,8 @@ CHECKS["C04"] = dict(
     rule="states = searches executed ((root, depth, table size, null-move, network) tuples, distinct by construction); transitions = PV lines examined; non-trivial = the search reported at least one mate score",
     alphabet="roots: every legal placement with the white king in the a1-d1-d4 triangle of KQvK, KRvK (and more classes / strides per tier), both sides to move; positions of the seed trees "
              "in which the independent AND/OR solver finds a forced mate; configurations: depth x {512-entry, 64k-entry table} x UseNullMove x synthetic network; tables persist across roots (histories); "
+             "announce: every position (side to move owning a pawn and a piece, every 3rd ply from ply 12) of 300 (1500) deterministic LCG games that prefer captures and checks every third move, "
+             "searched to depth 6 (5, 6, 8; two table sizes; null move on/off) - roots are NOT pre-selected by the solver, false announcements arise where no short mate exists; "
              "tb-backed: searches without depth limit (16 MB table, on-demand tablebase built and consulted) on 4-men roots that will be announced as mates in <= 3 (every 3rd loss / 9th win root of "
              "KQvKN in quick, all of 7 classes in thorough) plus every 999th (199th) other placement",
     oracle="exact distance to mate from a generated table (C12-checked) resp. the AND/OR solver: every exact or lower-bound 'mate N>0' line => mate can be forced within N; the delivered best move keeps a forced mate; "
@@ -469,12 +473,12 @@ def c08_parts(tier, seed):
         parts += [
             P("slots-2x2-full", T, "sched", ["--part", "slots", "--threads", 2, "--ops", 2, "--init", 1], require=["schedules"], deadline_frac=0.9),
             P("slots-3x1-oldgen", T, "sched", ["--part", "slots", "--threads", 3, "--ops", 1, "--init", 2], require=["probe_hits"], deadline_frac=0.9),
-            P("slots-3x2", T, "sched", ["--part", "slots", "--threads", 3, "--ops", 2, "--init", 0, "--maxsched", 2000000], require=["probe_hits"], deadline_frac=0.95),
+            P("slots-3x2", T, "sched", ["--part", "slots", "--threads", 3, "--ops", 2, "--init", 0, "--maxsched", 2000000], require=["probe_hits"], deadline_frac=0.4),
             P("slots-2x2-asan", T, "sched-asan", ["--part", "slots", "--threads", 2, "--ops", 2, "--init", 0], require=["probe_hits"], deadline_frac=0.9),
             P("weak-2x1-full", T, "sched", ["--part", "weak", "--threads", 2, "--ops", 1, "--init", 1], require=["probe_misses"]),
             P("weak-2x2-full", T, "sched", ["--part", "weak", "--threads", 2, "--ops", 2, "--init", 1], require=["probe_hits"], deadline_frac=0.9),
             P("weak-2x2-oldgen", T, "sched", ["--part", "weak", "--threads", 2, "--ops", 2, "--init", 2], require=["probe_hits"], deadline_frac=0.9),
-            P("weak-3x2", T, "sched", ["--part", "weak", "--threads", 3, "--ops", 2, "--init", 0, "--maxcombos", 20000000], require=["probe_hits"], deadline_frac=0.95),
+            P("weak-3x2", T, "sched", ["--part", "weak", "--threads", 3, "--ops", 2, "--init", 0, "--maxcombos", 20000000], require=["probe_hits"], deadline_frac=0.4),
         ]
     return parts
 
@@ -522,6 +526,7 @@ def c07_parts(tier, seed):
         P("sym-u4", T, "fast", ["--part", "sym", "--universe", "u4", "--wk", 2, "--from", (seed * 6) % 80, "--count", 6 if q else 80], require=["nontrivial"], deadline_frac=0.9),
         P("sym-perft", T, "fast", ["--part", "sym", "--universe", "perft", "--depth", 2 if q else 3], require=["nontrivial"]),
         P("sym-5men", T, "fast", ["--part", "sym", "--universe", "5men", "--ks", 5 if q else 3, "--xs", 3 if q else 2, "--ys", 7 if q else 3], require=["nontrivial"], deadline_frac=0.9),
+        P("sym-rules6", T, "fast", ["--part", "sym", "--universe", "rules6", "--ks", 7 if q else 4, "--xs", 7 if q else 5, "--ps", 5 if q else 2], require=["nontrivial"], deadline_frac=0.9),
     ]
     for fl in ("simd-generic", "simd-ssse3", "simd-avx2", "simd-avx512"):
         parts.append(P("stream-" + fl, T, fl, ["--part", "stream"], workers=1, require=["states"]))
@@ -544,7 +549,7 @@ CHECKS["C07"] = dict(
     alphabet="ops: ALL sequences up to depth d over {make first capture / middle / last king move, unmake-or-undo, null-move edit, evaluate, copy-assign from the seed, copy-assign from the "
              "position 2 plies later, 5 direct setPiece edits (> maxIncr pending feature changes), toggle one knight, clear eval hash} from 6 seeds (castling+captures, en passant, "
              "capture-promotions, kings at the e-file mirror boundary, queen-heavy material, middlegame), each on a fresh Evaluate + tables; search: every Evaluate::evalPos call of real "
-             "depth-d searches from the seed trees (ld --wrap); sym: U-3 (all), 4-men classes, seed trees, 5-men rule classes KRPKR/KBPKB/KBPKN/KNPKB/KQKRP thinned; contempt 0 and 37/-37; "
+             "depth-d searches from the seed trees (ld --wrap); sym: U-3 (all), 4-men classes, seed trees, 5-men rule classes KRPKR/KBPKB/KBPKN/KNPKB/KQKRP thinned, 6-men rule classes KRPvKRP, KQvKRBP, KQvKRNP, KQvKRPP on a sub-lattice; contempt 0 and 37/-37; "
              "SIMD: one evaluation stream (621k positions + an incremental walk) in the generic, SSSE3, AVX2 and AVX-512 builds, networks 1 (material + noise) and 2 (extreme weights)",
     oracle="value after any history == from-scratch evaluation by a separate evaluator with forceFullEval and an emptied cache entry; evaluating twice gives the same value; "
            "eval(p) == eval(colour-swapped p) (with negated contempt) and == eval(left-right mirrored p) when no castling rights; identical stream hash in all four SIMD builds",
@@ -596,21 +601,26 @@ def c10_parts(tier, seed):
             P("bound1-threads12", T, "sched", ["--part", "explore", "--threads", "1,2", "--bound", 1], require=["schedules", "determinism_checks"], deadline_frac=0.9),
             P("bound2-threads1", T, "sched", ["--part", "explore", "--threads", "1", "--bound", 2, "--scripts", "S1;S2;S4;S13"], require=["schedules"], deadline_frac=0.9),
             P("bound1-threads3", T, "sched", ["--part", "explore", "--threads", "3", "--bound", 1, "--scripts", "S1;S2;S5;S6;S7"], require=["schedules"], deadline_frac=0.9),
+            P("deep-default", T, "sched", ["--part", "explore", "--threads", "2,3", "--bound", 0, "--scripts", "D1;D2;D3;D4;D5;D6;D7;D8;S16;S17"], require=["schedules"], deadline_frac=0.9),
+            P("deep-bound1", T, "sched", ["--part", "explore", "--threads", "2", "--bound", 1, "--scripts", "D5"], require=["nontrivial"], deadline_frac=0.9),
         ]
     return [
         P("bound2-threads12", T, "sched", ["--part", "explore", "--threads", "1,2", "--bound", 2], require=["schedules", "determinism_checks"], deadline_frac=0.6),
         P("bound1-threads3", T, "sched", ["--part", "explore", "--threads", "3", "--bound", 1], require=["schedules"], deadline_frac=0.2),
         P("bound3-threads1", T, "sched", ["--part", "explore", "--threads", "1", "--bound", 3, "--scripts", "S1;S2;S13"], require=["schedules"], deadline_frac=0.2),
         P("bound1-asan", T, "sched-asan", ["--part", "explore", "--threads", "2", "--bound", 1, "--scripts", "S1;S2;S3;S5;S7;S9"], require=["schedules"], deadline_frac=0.2),
+        P("deep-default", T, "sched", ["--part", "explore", "--threads", "2,3,4", "--bound", 0, "--scripts", "D1;D2;D3;D4;D5;D6;D7;D8;S16;S17"], require=["schedules"], deadline_frac=0.2),
+        P("deep-bound1", T, "sched", ["--part", "explore", "--threads", "2", "--bound", 1, "--scripts", "D5;D3;D8;S17"], require=["nontrivial"], deadline_frac=0.4),
     ]
 
 C10_COMMON = dict(
     engine="vsched-explorer",
     rule="states = distinct executions (fingerprint of the granted (thread, operation) sequence) of the real engine stack under the controlled scheduler; transitions = scheduling points "
          "executed; non-trivial = the schedule deviates from the default scheduler at least once",
-    alphabet="13 scripts x Threads in {1,2,3}: go/finish, infinite/stop, ponder/ponderhit, ponder/stop, back-to-back go on positions with disjoint legal moves (white / black to move), "
+    alphabet="15 control scripts x Threads in {1,2,3}: go/finish, infinite/stop, ponder/ponderhit, ponder/stop, back-to-back go on positions with disjoint legal moves (white / black to move), "
              "Threads change between searches, quit during search, option change + isready during search, EOF during search, KQK depth 2, ucinewgame between searches, no-legal-move root + "
-             "searchmoves, stop after a search that ended by itself; scheduling points: every mutex lock/unlock, condition wait/notify, thread create/start/exit/join, sleep, sequentially "
+             "searchmoves, stop after a search that ended by itself, option changes between / during searches followed by a clock-based go; where stated also 8 scripts with real multi-threaded searches "
+             "(D1-D8) and 2 scripts changing Threads 8->6 and 2->7 (the worker tree changes shape at 6); scheduling points: every mutex lock/unlock, condition wait/notify, thread create/start/exit/join, sleep, sequentially "
              "consistent atomic store/RMW (search, quitFlag, terminate, ponder, infinite, node counters); the script driver is a scheduled thread too (command arrival relative to search progress)",
     oracle="in every execution: no deadlock (no enabled thread while some are unfinished), no livelock (step horizon), replay never diverges; transcript contract (exactly one bestmove per go, "
            "not before the releasing stop/ponderhit/quit/EOF/next go for ponder and infinite searches, one readyok per isready, no info after bestmove, well-formed lines), best move legal for the "
@@ -621,8 +631,11 @@ C10_COMMON = dict(
 )
 CHECKS["C10"] = dict(
     parts=c10_parts,
-    bound=dict(quick="delay bound 1 for all 13 scripts with Threads 1 and 2; delay bound 2 for S1, S2, S4, S13 with Threads 1; delay bound 1 for 5 scripts with Threads 3",
-               thorough="delay bound 2 for all scripts (Threads 1, 2), bound 1 with Threads 3, bound 3 for S1/S2/S13, under the deadline (unfinished bounds reported as exhaustive:false)"),
+    bound=dict(quick="delay bound 1 for all 15 control scripts with Threads 1 and 2; delay bound 2 for S1, S2, S4, S13 with Threads 1; delay bound 1 for 5 scripts with Threads 3; "
+                     "8 scripts with real multi-threaded searches (D1-D8) and 2 scripts that change the thread count across 6 (S16, S17) under the default schedule with Threads 2, 3; "
+                     "the timed-ponderhit script D5 at delay bound 1",
+               thorough="delay bound 2 for all control scripts (Threads 1, 2), bound 1 with Threads 3, bound 3 for S1/S2/S13, search scripts with Threads 2-4 and bound 1 for D5/D3/D8/S17, "
+                        "under the deadline (unfinished bounds reported as exhaustive:false)"),
     technique="stateless model checking of the real code: token-passing scheduler over hooked synchronisation points, iterative delay-bounded exhaustive exploration, replayable schedules",
     level_text="Every schedule of the real protocol/engine/helper threads within the delay bound is executed (in a forked child, deterministically replayable) and judged; this is exhaustive "
                "up to the bound for the stated scripts, which is the right level for lost wake-ups, deadlocks and misattributed results.",
@@ -637,13 +650,13 @@ def c09_parts(tier, seed):
     DEEP = "D1;D2;D3;D4;D5;D6;D7;D8"
     if q:
         return [
-            P("tsan-default-all", T, "sched-tsan", ["--part", "explore", "--threads", "2,3", "--bound", 0, "--scripts", "S1;S2;S3;S4;S5;S6;S7;S8;S9;S10;S11;S12;S13;S14;S15"], workers=10, env=TSAN_ENV, require=["schedules"], deadline_frac=0.9),
+            P("tsan-default-all", T, "sched-tsan", ["--part", "explore", "--threads", "2,3", "--bound", 0, "--scripts", "S1;S2;S3;S4;S5;S6;S7;S8;S9;S10;S11;S12;S13;S14;S15;S16;S17"], workers=10, env=TSAN_ENV, require=["schedules"], deadline_frac=0.9),
             P("tsan-deep-default", T, "sched-tsan", ["--part", "explore", "--threads", "2", "--bound", 0, "--scripts", DEEP], workers=8, env=TSAN_ENV, require=["schedules"], deadline_frac=0.9),
             P("tsan-deep-threads3", T, "sched-tsan", ["--part", "explore", "--threads", "3", "--bound", 0, "--scripts", "D2;D3;D4;D5;D8"], workers=5, env=TSAN_ENV, require=["schedules"], deadline_frac=0.9),
             P("tsan-bound1-options", T, "sched-tsan", ["--part", "explore", "--threads", "1", "--bound", 1, "--scripts", "S14"], workers=8, env=TSAN_ENV, require=["nontrivial"], deadline_frac=0.9),
             P("tsan-bound1-threads2", T, "sched-tsan", ["--part", "explore", "--threads", "2", "--bound", 1, "--scripts", "S2"], workers=16, env=TSAN_ENV, require=["nontrivial"], deadline_frac=0.9),
             P("tsan-pools", T, "sched-tsan", ["--part", "pool", "--bound", 1, "--poolcap", 12], workers=4, env=TSAN_ENV, require=["schedules"], deadline_frac=0.9),
-            P("tsan-free", T, "sched-tsan", ["--part", "free", "--threads", "4,8", "--scripts", "S1;S2;S3;S5;S7;S14;S15;D1;D6", "--reps", 1], workers=6, env=TSAN_ENV, require=["schedules"], deadline_frac=0.9),
+            P("tsan-free", T, "sched-tsan", ["--part", "free", "--threads", "4,8", "--scripts", "S1;S2;S3;S5;S7;S14;S15;S16;S17;D1;D6", "--reps", 1], workers=6, env=TSAN_ENV, require=["schedules"], deadline_frac=0.9),
         ]
     return [
         P("tsan-bound1-all", T, "sched-tsan", ["--part", "explore", "--threads", "2,3", "--bound", 1, "--scripts", "S1;S2;S3;S4;S5;S6;S7;S8;S9;S10;S11;S12;S13;S14;S15"], workers=16, env=TSAN_ENV, require=["schedules"], deadline_frac=0.8),
@@ -651,7 +664,7 @@ def c09_parts(tier, seed):
         P("tsan-deep-bound1", T, "sched-tsan", ["--part", "explore", "--threads", "2", "--bound", 1, "--scripts", "D5;D3"], workers=16, env=TSAN_ENV, require=["nontrivial"], deadline_frac=0.5),
         P("tsan-bound1-options", T, "sched-tsan", ["--part", "explore", "--threads", "1,2", "--bound", 1, "--scripts", "S14;S15"], workers=8, env=TSAN_ENV, require=["nontrivial"], deadline_frac=0.6),
         P("tsan-pools", T, "sched-tsan", ["--part", "pool", "--bound", 1, "--poolcap", 200], workers=4, env=TSAN_ENV, require=["schedules"], deadline_frac=0.3),
-        P("tsan-free", T, "sched-tsan", ["--part", "free", "--threads", "2,4,8", "--scripts", "S1;S2;S3;S4;S5;S6;S7;S8;S9;S11;S14;S15;" + DEEP, "--reps", 3], workers=6, env=TSAN_ENV, require=["schedules"], deadline_frac=0.3),
+        P("tsan-free", T, "sched-tsan", ["--part", "free", "--threads", "2,4,8", "--scripts", "S1;S2;S3;S4;S5;S6;S7;S8;S9;S11;S14;S15;S16;S17;" + DEEP, "--reps", 3], workers=6, env=TSAN_ENV, require=["schedules"], deadline_frac=0.3),
     ]
 
 CHECKS["C09"] = dict(
